@@ -1,6 +1,6 @@
 (* C05 -- p-value, observed statistic and returned distribution are mutually consistent.
    Statements only; proofs in Proofs/CoreProofs.v. *)
-From PV Require Import Lib.Base Model.Prng Model.Core Model.Stratified Proofs.CoreProofs.
+From PV Require Import Lib.Base Model.Prng Model.Core Model.NoDist Model.Stratified Proofs.CoreProofs Proofs.NoDistProofs.
 Open Scope Q_scope.
 
 (* core.py's table pUp + plus1/(reps+plus1) ... is the textbook (H+c)/(reps+c); two-sided doubles and caps *)
@@ -32,6 +32,17 @@ Theorem C05_p_from_dist_corr_ksample : forall a tst sims plus1,
   ksample_pvalue tst sims plus1 = pv_textbook Greater (cc plus1) tst sims.
 Proof. intros. split; [apply corr_pvalue_textbook|reflexivity]. Qed.
 Print Assumptions C05_p_from_dist_corr_ksample.
+
+(* keep_dist changes neither the p-value nor the statistic (nor the generator state): the keep_dist=False code
+   paths -- hit counters updated inside the loop, nothing stored (Model/NoDist.v) -- return exactly what the
+   keep_dist=True paths return, for every table / data set, statistic, alternative, reps, plus1 and tape *)
+Theorem C05_keep_dist_false_path_agrees : forall s pot nx a reps plus1 t x y s1,
+  two_sample_core_nodist s pot nx a reps plus1 t =
+    match two_sample_core s pot nx a reps plus1 t with Ok r => Ok (pval r, tstat r, rest r) | Err e => Err e end /\
+  one_sample_nodist x y s1 a reps plus1 t =
+    match one_sample x y s1 a reps plus1 t with Ok r => Ok (pval r, tstat r, rest r) | Err e => Err e end.
+Proof. intros. split; [apply two_sample_core_nodist_eq|apply one_sample_nodist_eq]. Qed.
+Print Assumptions C05_keep_dist_false_path_agrees.
 
 (* c/(reps+c) <= p <= 1: never 0 with plus1 on; in [0,1] otherwise *)
 Theorem C05_pvalue_bounds : forall a c tst d, (0 < length d + c)%nat ->
